@@ -37,3 +37,63 @@ mod vp_kani {
         }
     }
 }
+
+/// JSON leg of C16 (bounded stand-in: every ASCII string of at most 70 bytes): what `#[derive(Deserialize)]` +
+/// `serde_hex_prfx::deserialize` accept, driven through a minimal Deserializer that holds one borrowed string.
+#[cfg(kani)]
+mod vp_kani_serde {
+    use super::*;
+    use serde::de::{Deserializer, Visitor};
+    use serde::Deserialize;
+
+    #[derive(Debug)]
+    pub struct E;
+    impl core::fmt::Display for E {
+        fn fmt(&self, _f: &mut core::fmt::Formatter<'_>) -> core::fmt::Result { Ok(()) }
+    }
+    impl std::error::Error for E {}
+    impl serde::de::Error for E {
+        fn custom<T: core::fmt::Display>(_msg: T) -> Self { E }
+    }
+    impl serde::ser::Error for E {
+        fn custom<T: core::fmt::Display>(_msg: T) -> Self { E }
+    }
+    /// a deserializer that holds one borrowed string (what a JSON string token is for serde)
+    pub struct StrDe<'a>(pub &'a str);
+    impl<'de> Deserializer<'de> for StrDe<'de> {
+        type Error = E;
+        fn deserialize_any<V: Visitor<'de>>(self, visitor: V) -> Result<V::Value, E> { visitor.visit_borrowed_str(self.0) }
+        serde::forward_to_deserialize_any! {
+            bool i8 i16 i32 i64 i128 u8 u16 u32 u64 u128 f32 f64 char str string bytes byte_buf option unit unit_struct
+            seq tuple tuple_struct map struct enum identifier ignored_any
+        }
+        fn deserialize_newtype_struct<V: Visitor<'de>>(self, _name: &'static str, visitor: V) -> Result<V::Value, E> { visitor.visit_newtype_struct(self) }
+    }
+    fn is_hex(b: u8) -> bool { (b >= b'0' && b <= b'9') || (b >= b'a' && b <= b'f') || (b >= b'A' && b <= b'F') }
+    fn hexval(b: u8) -> u8 { if b <= b'9' { b - b'0' } else if b >= b'a' { b - b'a' + 10 } else { b - b'A' + 10 } }
+
+    #[kani::proof]
+    #[kani::unwind(72)]
+    fn deserialize_exact() {
+        let buf: [u8; 70] = kani::any();
+        let len: usize = kani::any();
+        kani::assume(len <= 70);
+        let mut i = 0;
+        while i < 70 { kani::assume(buf[i] < 128); i += 1; }
+        let s = unsafe { core::str::from_utf8_unchecked(&buf[..len]) };
+        let r: Result<NodeId, E> = NodeId::deserialize(StrDe(s));
+        let off = if len >= 2 && buf[0] == b'0' && buf[1] == b'x' { 2 } else { 0 };
+        let mut all_hex = true;
+        let mut j = off;
+        while j < len { if !is_hex(buf[j]) { all_hex = false; } j += 1; }
+        let expect_ok = len - off == 64 && all_hex;
+        assert!(r.is_ok() == expect_ok);
+        if let Ok(n) = r {
+            let raw = n.raw();
+            let mut k = 0;
+            while k < 32 { assert!(raw[k] == hexval(buf[off + 2 * k]) * 16 + hexval(buf[off + 2 * k + 1])); k += 1; }
+        }
+        kani::cover!(expect_ok && off == 2, "prefixed form accepted");
+        kani::cover!(expect_ok && off == 0, "bare form accepted");
+    }
+}
